@@ -1,13 +1,14 @@
 (** C17: after ANY finite history of string conversions (each re-registering a handler bound to the converting
     instance), unconversions and Time operations by any instances, the handler that dispatch returns for any class
     answers every (calling instance, value) exactly as the handler of the import-time state does.
-    Hypothesis (explicit, measured by the correspondence run): what _unconvert_datetime computes does not depend
-    on the instance it is bound to. *)
+    Hypothesis (explicit, both disjuncts measured on every run): the interpreter hands a registered bound method the
+    CALLING instance again ([rebinds]: CPython 3.11+, where method objects forward __get__ to their function), or
+    what _unconvert_datetime computes does not depend on the instance it runs with. *)
 From OfxV Require Import Base.Prelude Model.Dispatch Proofs.DispatchProofs.
-Theorem dispatch_history_independent : forall (rereg : bool) (fmt : inst -> pyval -> result text),
-  (forall i j v, fmt i v = fmt j v) ->
+Theorem dispatch_history_independent : forall (rereg rebinds : bool) (fmt : inst -> pyval -> result text),
+  (rebinds = true \/ forall i j v, fmt i v = fmt j v) ->
   forall (ops : list op) (t : ty) (caller : inst) (v : pyval),
-    sem fmt (fst (dispatch (fst (run_ops rereg fmt init_state ops)) t)) caller v
-    = sem fmt (fst (dispatch init_state t)) caller v.
+    sem rebinds fmt (fst (dispatch (fst (run_ops rereg rebinds fmt init_state ops)) t)) caller v
+    = sem rebinds fmt (fst (dispatch init_state t)) caller v.
 Proof. exact dispatch_history_independent_thm. Qed.
 Print Assumptions dispatch_history_independent.
